@@ -538,6 +538,7 @@ type detGen struct {
 	r       *rand.Rand
 	accts   []detAcct
 	tfDenom map[int][]string // tokenfactory subdenoms tried per account
+	forced  string           // kind of the next transaction, when the previous one asked for a follow-up
 	nTf     int
 	counts  map[string]int
 }
@@ -604,18 +605,76 @@ func detPools(n *detNode) []poolInfo {
 	return out
 }
 
+// moduleAddr: the address of a module account of the app's permission table; missing=true prefers one that has NOT been
+// created yet (the app creates most module accounts lazily, on first use), else one that exists.
+func (g *detGen) moduleAddr(a *detNode, missing bool) string {
+	ctx := a.readCtx()
+	var names []string
+	for n := range osmoapp.GetMaccPerms() {
+		names = append(names, n)
+	}
+	sort.Strings(names)
+	var ex, miss []string
+	for _, n := range names {
+		ad := authtypes.NewModuleAddress(n)
+		if a.app.AccountKeeper.HasAccount(ctx, ad) {
+			ex = append(ex, ad.String())
+		} else {
+			miss = append(miss, ad.String())
+		}
+	}
+	pick := ex
+	if missing && len(miss) > 0 || len(ex) == 0 {
+		pick = miss
+	}
+	return pick[g.r.Intn(len(pick))]
+}
+
 // next transaction, built from node A's current state.
-func (g *detGen) nextTx(a *detNode, pools []poolInfo, si int) detTx {
+func (g *detGen) nextTx(a *detNode, pools []poolInfo, si int, forceKind ...string) detTx {
 	me := g.accts[si]
 	ctx := a.readCtx()
 	weights := map[string]int{"send": 6, "multisend": 1, "lock": 6, "unlock": 4, "unlockall": 1, "createbal": 2, "createstable": 1, "createcl": 2,
 		"join": 5, "exit": 3, "joinswap": 2, "swapin": 10, "swapout": 4, "split": 3, "clpos": 7, "clwithdraw": 3, "clcollect": 3, "cladd": 1,
-		"tfcreate": 2, "tfmint": 4, "tfburn": 2, "tfadmin": 2, "gauge": 5, "addgauge": 2, "delegate": 2, "withdrawrewards": 2, "bogus": 2,
-		"setfeetoken": 1, "protorevbase": 1}
+		"tfcreate": 2, "tfmint": 4, "tfburn": 2, "tfadmin": 2, "tfforce": 5, "tfburnfrom": 2, "gauge": 5, "addgauge": 2, "delegate": 2, "withdrawrewards": 2, "bogus": 2,
+		"setfeetoken": 1, "protorevbase": 1, "revert": 3}
 	if len(pools) < 3 {
 		weights["createbal"], weights["createcl"], weights["createstable"] = 12, 12, 4
 	}
 	kind := g.pick(weights)
+	if len(forceKind) > 0 && forceKind[0] != "" {
+		kind = forceKind[0]
+	} else if g.forced != "" {
+		kind, g.forced = g.forced, ""
+	}
+	if kind == "revert" {
+		// a transaction whose first message SUCCEEDS (mostly: creates a pool, which takes the next pool id and makes every
+		// module that hooks into pool creation look the new pool up) and whose last message FAILS: the node must roll back
+		// everything — stores AND whatever it keeps in memory beside them.  The next transaction creates a pool of ANOTHER
+		// module, which is handed the id the reverted one had taken.
+		firsts := []string{"createbal", "createbal", "createcl", "createcl", "createstable", "lock", "send", "tfcreate", "gauge"}
+		inner := g.nextTx(a, pools, si, firsts[g.r.Intn(len(firsts))])
+		other := g.accts[g.r.Intn(len(g.accts))]
+		var bad sdk.Msg
+		switch g.r.Intn(3) {
+		case 0:
+			bad = &banktypes.MsgSend{FromAddress: me.addr.String(), ToAddress: other.addr.String(), Amount: sdk.NewCoins(sdk.NewCoin("nonexistent", sdkmath.NewInt(5)))}
+		case 1:
+			bad = &gammtypes.MsgExitPool{Sender: me.addr.String(), PoolId: 9999, ShareInAmount: sdkmath.NewInt(5)}
+		default:
+			bad = &lockuptypes.MsgBeginUnlocking{Owner: me.addr.String(), ID: 99999}
+		}
+		base := strings.SplitN(inner.kind, "+", 2)[0]
+		inner.msgs = append(inner.msgs, bad)
+		inner.kind = "revert>" + inner.kind
+		switch base {
+		case "createbal", "createstable":
+			g.forced = "createcl"
+		case "createcl":
+			g.forced = []string{"createbal", "createstable"}[g.r.Intn(2)]
+		}
+		return inner
+	}
 	tx := detTx{signer: si, gas: 950_000, kind: kind, memo: fmt.Sprintf("m%d", g.r.Intn(1000))}
 	if g.r.Intn(6) == 0 {
 		tx.gas = 4_000_000 // high-gas tx: higher minimum gas price
@@ -880,7 +939,7 @@ func (g *detGen) nextTx(a *detNode, pools []poolInfo, si int) detTx {
 		g.nTf++
 		g.tfDenom[si] = append(g.tfDenom[si], sub)
 		tx.msgs = []sdk.Msg{&tokenfactorytypes.MsgCreateDenom{Sender: me.addr.String(), Subdenom: sub}}
-	case "tfmint", "tfburn", "tfadmin":
+	case "tfmint", "tfburn", "tfadmin", "tfforce", "tfburnfrom":
 		if len(g.tfDenom[si]) == 0 {
 			sub := fmt.Sprintf("tok%d", g.nTf)
 			g.nTf++
@@ -894,10 +953,69 @@ func (g *detGen) nextTx(a *detNode, pools []poolInfo, si int) detTx {
 		switch kind {
 		case "tfmint":
 			to := ""
-			if g.r.Intn(2) == 0 {
+			switch g.r.Intn(10) {
+			case 0, 1, 2, 3:
 				to = other.addr.String()
+			case 4, 5: // a module account as receiver (refused): one that exists, one that has not been created yet
+				to = g.moduleAddr(a, g.r.Intn(2) == 0)
+				tx.kind += ">module"
 			}
 			tx.msgs = []sdk.Msg{&tokenfactorytypes.MsgMint{Sender: me.addr.String(), Amount: sdk.NewCoin(denom, g.amount(1_000_000)), MintToAddress: to}}
+		case "tfforce":
+			// MsgForceTransfer by the denom's admin.  The keeper walks EVERY module account name of the app (GetModuleAccount: a
+			// gas-charged read that CREATES a missing module account with the next account number) and refuses when the source
+			// or the destination is one of them.  Sources / destinations: users, module accounts that exist, module accounts
+			// not created yet; the plausible transfers are preceded by a mint of the amount to the source.
+			amt := sdk.NewCoin(denom, g.amount(1000))
+			from, to := me.addr.String(), other.addr.String()
+			mintFirst := false
+			switch g.r.Intn(12) {
+			case 0, 1, 2, 3:
+				mintFirst = true
+			case 4:
+				from, to = other.addr.String(), me.addr.String()
+				mintFirst = g.r.Intn(2) == 0
+			case 5:
+				from = g.moduleAddr(a, true)
+			case 6:
+				from = g.moduleAddr(a, false)
+			case 7:
+				to = g.moduleAddr(a, true)
+			case 8:
+				to = g.moduleAddr(a, false)
+			case 9:
+				from, to = g.moduleAddr(a, false), g.moduleAddr(a, true)
+			case 10:
+				to = from
+				mintFirst = true
+			}
+			if from != me.addr.String() && from != other.addr.String() || to != me.addr.String() && to != other.addr.String() {
+				tx.kind += ">module"
+			}
+			if mintFirst {
+				tx.msgs = append(tx.msgs, &tokenfactorytypes.MsgMint{Sender: me.addr.String(), Amount: amt, MintToAddress: from})
+			}
+			tx.msgs = append(tx.msgs, &tokenfactorytypes.MsgForceTransfer{Sender: me.addr.String(), Amount: amt, TransferFromAddress: from, TransferToAddress: to})
+			if mintFirst && g.r.Intn(4) == 0 { // now and then the transfer BEFORE the mint that would fund it
+				tx.msgs[0], tx.msgs[1] = tx.msgs[1], tx.msgs[0]
+			}
+		case "tfburnfrom":
+			amt := sdk.NewCoin(denom, g.amount(1000))
+			from := other.addr.String()
+			switch g.r.Intn(6) {
+			case 0:
+				from = g.moduleAddr(a, true)
+				tx.kind += ">module"
+			case 1:
+				from = g.moduleAddr(a, false)
+				tx.kind += ">module"
+			case 2:
+				from = me.addr.String()
+			}
+			if g.r.Intn(3) != 0 {
+				tx.msgs = append(tx.msgs, &tokenfactorytypes.MsgMint{Sender: me.addr.String(), Amount: amt, MintToAddress: from})
+			}
+			tx.msgs = append(tx.msgs, &tokenfactorytypes.MsgBurn{Sender: me.addr.String(), Amount: amt, BurnFromAddress: from})
 		case "tfburn":
 			tx.msgs = []sdk.Msg{&tokenfactorytypes.MsgBurn{Sender: me.addr.String(), Amount: sdk.NewCoin(denom, g.amount(1000)), BurnFromAddress: ""}}
 		case "tfadmin":
@@ -1306,6 +1424,8 @@ func runDetHistory(t *testing.T, o *Out, accts []detAcct, hseed int64, hist int,
 				}
 			}
 		}
+		// every transaction of this block, several fresh executions on A's committed state (det_repeat_test.go)
+		detRepeatBlock(o, hist, k, a, txs)
 		bzA, errA := a.signAll(accts, txs)
 		bzB, errB := b.signAll(accts, txs)
 		if errA != nil || errB != nil {
@@ -1488,6 +1608,9 @@ func runDetHistory(t *testing.T, o *Out, accts []detAcct, hseed int64, hist int,
 					o.Fail("nondeterminism:import-twice:raw-store", fmt.Sprintf("hist %d after block %d: %s", hist, k, strings.Join(left, " ;; ")))
 				}
 				o.Count("import.twice-compared")
+				// every raw store of the imported node against the exporting node, class by class (what InitGenesis rebuilds
+				// differently is either on the list of known losses or an oracle failure)
+				detDerivedStores(o, hist, k, a, nd)
 				for cls, cnt := range detStoreSync(a, nd) {
 					o.dist["rawstore-diff-after-import."+cls] += cnt
 				}
@@ -1498,6 +1621,7 @@ func runDetHistory(t *testing.T, o *Out, accts []detAcct, hseed int64, hist int,
 	if hist == 0 {
 		detProbeProtorev(o, a)
 	}
+	detProbeSortedSites(o, hist, a, accts)
 	if d != nil {
 		ea, err1 := a.export()
 		ed, err2 := d.export()
@@ -1977,7 +2101,10 @@ func detExplain(o *Out, hist, k int, txs []detTx, x, y blockObs, prefix string, 
 		if i >= len(y.txs) {
 			break
 		}
-		if i < len(x.known) && x.known[i] != "" && (x.txs[i] != y.txs[i] || x.gas[i] != y.gas[i]) &&
+		// the order-dependence key of a site is meaningful only between nodes in EQUIVALENT states (A/B, A/synchronised D): on the
+		// node imported as-is (prefix export-import) the stores are known to differ (F30-F37), so the gas consumed up to an
+		// out-of-gas abort differs as a consequence and is reported with the other consequences, not as a map-order finding
+		if prefix != "export-import" && i < len(x.known) && x.known[i] != "" && (x.txs[i] != y.txs[i] || x.gas[i] != y.gas[i]) &&
 			gasUsedRe.ReplaceAllString(x.txs[i], "") == gasUsedRe.ReplaceAllString(y.txs[i], "") {
 			o.Fail(x.known[i], fmt.Sprintf("hist %d block %d tx %d (%s %T) through ABCI on two nodes: gas used %d | %d; %s", hist, k, i, txs[i].kind, txs[i].msgs[0], x.gas[i], y.gas[i], x.txs[i]))
 			explained = true
@@ -2101,6 +2228,7 @@ func detProbes(t *testing.T, o *Out) {
 			differs = true
 		}
 	}
+	detPureProbes(o)
 	o.Count("probe.stargate-whitelist")
 	if differs {
 		o.Fail("nondeterminism:map-order:wasmbinding.GetStargateWhitelistedPaths", "two calls in one process return the whitelisted query paths in different orders; app/upgrades/v15 setICQParams stores the slice as icq AllowQueries")
